@@ -26,5 +26,6 @@ MCPickups == {P("radius", 1, 2, Q(-1, 1), Q(0, 1)), P("radius", 2, 1, Q(-2, 1), 
 SmallPickups == {P("radius", 1, 2, Q(-1, 1), Q(0, 1)), P("thickness", 1, 2, Q(1, 1), Q(1, 1)),
                  P("thickness", 2, 3, Q(2, 1), Q(0, 1))}
 OneRadius == {Q(32, 1)}
+NoPickups == {}
 OneGap == {Q(8, 1)}
 =============================================================================
